@@ -109,10 +109,12 @@ func c15Rule(kind string) generictables.Rule {
 
 // chain / hook variants: name -> rule kinds
 var c15Variants = map[string][]string{
+	"A0": {}, // a referenced chain with no rules at all
 	"A1": {"drop-tcp"},
 	"A2": {"jB", "drop-tcp"},
 	"A3": {"drop-tcp", "acc-udp", "ret"},
 	"A4": {"acc-udp", "drop-tcp"},
+	"B0": {},
 	"B1": {"acc"},
 	"B2": {"drop-tcp", "acc"},
 	"H0": {},
@@ -697,10 +699,10 @@ func c15Enabled(s *c15State, depth int) []c15Ev {
 	var evs []c15Ev
 	add := func(e c15Ev) { evs = append(evs, e) }
 	// (re-sending the current contents is included: Felix's managers do that on every resync)
-	for _, v := range []string{"A1", "A2", "A3", "A4"} {
+	for _, v := range []string{"A0", "A1", "A2", "A3", "A4"} {
 		add(c15Ev{Op: "chain", Chain: "cali-A", V: v})
 	}
-	for _, v := range []string{"B1", "B2"} {
+	for _, v := range []string{"B0", "B1", "B2"} {
 		add(c15Ev{Op: "chain", Chain: "cali-B", V: v})
 	}
 	for _, c := range []string{"cali-A", "cali-B"} {
@@ -939,7 +941,7 @@ func TestVerif_C15(t *testing.T) {
 	logrus.SetLevel(logrus.PanicLevel)
 	logrus.SetOutput(c15Discard{})
 	vk.Run(t, "C15", func(c *vk.Ctx) {
-		c.Rule("states = (kernel filter table of the repo's iptables-save/restore model, rules other software put there, desired Felix chains/hooks, Table's internal view: refcounts, dirty sets, cached hashes/full rules, in-sync flag, refresh-due) over chains cali-A (4 contents incl. a jump to cali-B), cali-B (2), FORWARD hooks (4 variants) + always-appended rules (2), 5 starting kernels (empty / foreign rules+chain / plus leftovers of an earlier Felix / each already synced); " +
+		c.Rule("states = (kernel filter table of the repo's iptables-save/restore model, rules other software put there, desired Felix chains/hooks, Table's internal view: refcounts, dirty sets, cached hashes/full rules, in-sync flag, refresh-due) over chains cali-A (5 contents incl. empty and a jump to cali-B), cali-B (3 incl. empty), FORWARD hooks (4 variants) + always-appended rules (2), 5 starting kernels (empty / foreign rules+chain / plus leftovers of an earlier Felix / each already synced); " +
 			"transitions = one API call, Apply (optionally with the 1st/2nd iptables-save failing in 4 ways or the 1st/2nd iptables-restore failing, and/or another program editing the table between Felix's read and write), an edit by another program (10 kinds), clock past the refresh interval, restart; " +
 			"every state is followed by fault-free probe Applies (plain and with forced re-read); non-trivial = Apply that wrote, was faulted or raced")
 		c.Assume("the kernel/iptables-restore behaves like felix/iptables/testutils.MockDataplane, extended in the harness with atomic rejection (roll back + error) of transactions that the real kernel refuses: delete/replace of a missing rule, insert into a missing chain, -X of a non-empty chain, any jump left pointing at a missing chain")
